@@ -462,6 +462,70 @@ def _forwhile(n, log, fq):
     log.append((fq, "for", "for(; c; step) written as while"))
 
 
+def _same_lvalue(a, b):
+    """structural equality of two side-effect-free lvalue / index expressions (casts and parentheses aside)"""
+    a, b = strip(a, casts=True), strip(b, casts=True)
+    if a.get("kind") != b.get("kind"):
+        return False
+    k = a.get("kind")
+    if k == "DeclRefExpr":
+        return a.get("referencedDecl", {}).get("id") == b.get("referencedDecl", {}).get("id")
+    if k == "MemberExpr":
+        if a.get("name") != b.get("name"):
+            return False
+    elif k in ("IntegerLiteral", "FloatingLiteral"):
+        return a.get("value") == b.get("value")
+    elif k in ("BinaryOperator", "UnaryOperator"):
+        if a.get("opcode") != b.get("opcode") or (k == "UnaryOperator" and a.get("opcode") in ("++", "--")):
+            return False
+    elif k not in ("CXXThisExpr", "ArraySubscriptExpr", "CXXOperatorCallExpr"):
+        return False
+    ka, kb = kids(a), kids(b)
+    return len(ka) == len(kb) and all(_same_lvalue(x, y) for x, y in zip(ka, kb))
+
+
+def _compound(n, log, fq):
+    """x = x op e   ->   x op= e   (op in + - * /; also x = e + x and x = e * x, both commutative in IEEE arithmetic) for a
+    side-effect-free lvalue x: the form the engine's own code uses and the rules read"""
+    for c in n.get("inner", []) or []:
+        if c:
+            _compound(c, log, fq)
+    if n.get("kind") == "BinaryOperator" and n.get("opcode") == "=" and len(n.get("inner") or []) == 2:
+        l, r = n["inner"]
+        rs = strip(r, casts=True)
+        if rs.get("kind") == "BinaryOperator" and rs.get("opcode") in ("+", "-", "*", "/") and len(kids(rs)) == 2:
+            a, b = kids(rs)
+            op = rs["opcode"]
+            other = None
+            if _same_lvalue(l, a):
+                other = b
+            elif op in ("+", "*") and _same_lvalue(l, b):
+                other = a
+            if other is not None and not any(x.get("kind") in ("CallExpr", "CXXMemberCallExpr") for x in walk(l)):
+                n["kind"] = "CompoundAssignOperator"
+                n["opcode"] = op + "="
+                n["inner"] = [l, other]
+                log.append((fq, op + "=", "x = x op e written as a compound assignment"))
+
+
+def _positive_if(n, log, fq):
+    """if(!c) A else B   ->   if(c) B else A   for a two-way `if` whose else branch is not an else-if chain"""
+    for c in n.get("inner", []) or []:
+        if c:
+            _positive_if(c, log, fq)
+    if n.get("kind") == "IfStmt":
+        raw = n.get("inner") or []
+        if len(raw) == 3 and raw[0] and raw[1] and raw[2] and raw[2].get("kind") != "IfStmt" and not n.get("hasVar") and \
+                not n.get("hasInit"):
+            c = raw[0]
+            cs = c
+            while cs.get("kind") in ("ParenExpr", "ImplicitCastExpr", "ExprWithCleanups") and kids(cs):
+                cs = kids(cs)[0]
+            if cs.get("kind") == "UnaryOperator" and cs.get("opcode") == "!" and kids(cs):
+                n["inner"] = [kids(cs)[0], raw[2], raw[1]]
+                log.append((fq, "if", "negated two-way if written positively"))
+
+
 def _const_right(n, log, fq):
     """`-1 == x`, `0 != x`  ->  `x == -1`, `x != 0`: equality is symmetric, the rules read the variable on the left"""
     for c in n.get("inner", []) or []:
@@ -485,6 +549,8 @@ def run(tu):
     for f in tu.all_fns():
         if f.body is not None:
             _const_right(f.body, log, f.qual)
+            _positive_if(f.body, log, f.qual)
+            _compound(f.body, log, f.qual)
             _rangefor(f.body, log, f.qual)
             _forwhile(f.body, log, f.qual)
             _rec3(f.body, log, f.qual)
